@@ -34,7 +34,7 @@ def cfg(tier: str, emit: bool, invariants: bool) -> str:
     t = "Q" if tier == "quick" else "T"
     s = GRID_CFG_COMMON.format(dims="{2, 3}", t=t, emit="TRUE" if emit else "FALSE")
     if invariants:
-        s += "INVARIANT GridLaws\nINVARIANT PairLaws\nINVARIANT VecLaw\n"
+        s += "INVARIANT GridLaws\nINVARIANT PairLaws\nINVARIANT VecLaw\n" + ("INVARIANT DiscInv\n" if tier == "quick" else "")
     s += "CONSTRAINT Emit\n"
     return s
 
@@ -273,7 +273,7 @@ def run(ctx: Ctx) -> None:
     cases = json_lines(res, key=None)
     maps = [c for c in cases if c.get("kind") == "map"]
     grids = [c for c in cases if c.get("kind") == "grid"]
-    if len(maps) + len(grids) == 0 or len(maps) + len(grids) + 4 < res.distinct - 60:
+    if len(maps) + len(grids) == 0 or len(maps) + len(grids) < 0.99 * res.distinct - 60:
         raise MachineryError(f"emission incomplete: {len(maps)}+{len(grids)} cases for {res.distinct} states")
     for i, c in enumerate(maps):
         check_map_case(ctx, c, variant=i + ctx.seed)
@@ -298,6 +298,6 @@ def run(ctx: Ctx) -> None:
     ctx.traces = len(maps) + len(grids) + len(lat)
     ctx.assumptions += [
         "rotations restricted to the rational sub-family (signed permutations, Pythagorean and rational-quaternion rotations, one flip each)",
-        "configuration lattice is finite; Discriminates (checked by TLC) shows the 16 maps of every lattice grid are pairwise distinct",
+        "configuration lattice is finite; Discriminates (checked by TLC on the quick lattice) shows the 16 maps of every quick-lattice grid are pairwise distinct",
         "tolerance policy: float32 paths rtol 2e-5, atol 2e-6 of the case scale; documented default rounding added where used",
     ]
